@@ -59,7 +59,9 @@ def _snapshot(sim):
     try:
         res.unwrap_or_err()
     except Exception as e:  # noqa: BLE001
-        failed = type(e).__name__ != "IntegrationFailure" or bool(sim.variables)
+        # `IntegrationFailure` with nothing recorded is also what a simulator that has not simulated yet answers; the two
+        # are told apart by the (private) error list
+        failed = type(e).__name__ != "IntegrationFailure" or bool(sim.variables) or bool(getattr(sim, "_errors", None))
     segs = None
     if sim.variables is not None:
         pl = sim.simulation_parameters or []
@@ -112,6 +114,37 @@ def real_run(case):
                 log.append(None)
             return r
 
+        def integrate_time_course(self, *, time_points):
+            """ops "simF" / "tcF": the solver reports failure.  `solve_ivp` runs as usual (its argument validation
+            included); `res.success` is turned off when it hands the result back, so the library's own failure branch
+            (`Result(IntegrationFailure())`, no advance of t0 / y0) is what runs.  A zero-length span cannot fail."""
+            if not fail_next[0]:
+                return super().integrate_time_course(time_points=time_points)
+            import mxlpy.integrators.int_scipy as mod
+
+            real_spi = mod.spi
+
+            class _Spi:
+                def __getattr__(self, name):
+                    if name != "solve_ivp":
+                        return getattr(real_spi, name)
+
+                    def solve_ivp(*a, **kw):
+                        res = real_spi.solve_ivp(*a, **kw)
+                        if len(res.t) > 0:
+                            res.success = False
+                            fail_next[1] += 1
+                        return res
+
+                    return solve_ivp
+
+            mod.spi = _Spi()
+            try:
+                return super().integrate_time_course(time_points=time_points)
+            finally:
+                mod.spi = real_spi
+
+    fail_next = [False, 0]
     # constructor options (public parameters): explicit y0, use_jacobian, test_run, integrator keyword arguments
     ctor = case.get("ctor") or {}
     integ = Recording
@@ -134,9 +167,15 @@ def real_run(case):
         op2 = list(op)
         try:
             touched = None
-            if kind == "sim":
+            fail_next[0] = kind in ("simF", "tcF")
+            if kind in ("sim", "simF"):
                 sim.simulate(float(F(op[1])), steps=op[2])
-            elif kind == "tc":
+            elif kind == "scale":
+                if len(op[1]) == 1:
+                    sim.scale_parameter(op[1][0][0], float(F(op[1][0][1])))
+                else:
+                    sim.scale_parameters({k: float(F(v)) for k, v in op[1]})
+            elif kind in ("tc", "tcF"):
                 vals = [F(t) for t in op[1]]
                 if vals and all(v.denominator == 1 for v in vals) and int(sum(vals)) % 2 == 1:
                     # callers also pass integer-typed grids (lists of ints / integer arrays)
@@ -185,6 +224,7 @@ def real_run(case):
             outs.append(type(e).__name__)
         except Exception as e:  # noqa: BLE001
             outs.append("other:" + type(e).__name__)
+        fail_next[0] = False
         if kind == "steady":
             got = log[n0:]
             k = got[0] if got else None
@@ -404,6 +444,8 @@ def py_oracle(case, real):
     expected = []  # list of (time, state) of the current result
 
     def check(snap):
+        if bool(snap["failed"]) != failed:
+            bad.append(f"failed flag {snap['failed']}, expected {failed}")
         if snap["segs"] is None:
             if expected:
                 bad.append("results missing")
@@ -422,10 +464,13 @@ def py_oracle(case, real):
     for op, out in zip(real["ops"], real["outs"]):
         kind = op[0]
         if kind == "par":
-            for k, v in op[1]:
-                if k not in p:
-                    break
-                p[k] = F(v)
+            if all(k in p for k, _ in op[1]):
+                for k, v in op[1]:
+                    p[k] = F(v)
+        elif kind == "scale":
+            if all(k in p for k, _ in op[1]):
+                new = {k: p[k] * F(v) for k, v in op[1]}
+                p.update(new)
         elif kind == "var":
             cur = dict(cur)
             for k, v in op[1]:
@@ -436,19 +481,23 @@ def py_oracle(case, real):
             check(next(snaps))
             now, cur, have, failed, expected = F(0), dict(y0), False, False, []
         elif failed:
+            if out is not None:
+                bad.append(f"{kind} on a failed simulator: outcome {out}")
             continue
-        elif kind == "sim":
+        elif kind in ("sim", "simF"):
             t = F(op[1])
             refuse = t <= now
             if refuse != (out == "ValueError") and (op[2] is None or op[2] >= 1):
                 bad.append(f"simulate({t}) at {now}: outcome {out}")
-            if out is None:
+            if out is None and kind == "simF":
+                failed = True  # the solver failed: nothing recorded, the simulator is failed
+            elif out is None:
                 if not have:
                     expected.append((now, dict(cur)))
                 cur2 = _flow(p, cur, t - now)
                 expected.append((t, cur2))
                 now, cur, have = t, cur2, True
-        elif kind == "tc":
+        elif kind in ("tc", "tcF"):
             pts = [F(t) for t in op[1]]
             if not pts:
                 continue
@@ -457,7 +506,9 @@ def py_oracle(case, real):
             srt = all(a < b for a, b in zip(kept, kept[1:]))
             if srt and refuse != (out == "ValueError"):
                 bad.append(f"time course {pts} at {now}: outcome {out}")
-            if out is None:
+            if out is None and kind == "tcF":
+                failed = True
+            elif out is None:
                 if not have:
                     expected.append((now, dict(cur)))
                 for t in kept:
@@ -500,6 +551,8 @@ def alphabet():
             ["tc", ["4", "4"]], ["tc", ["1"]]]
     ops += [["steady", "?"], ["par", [["k", "2"]]], ["par", [["u", "0"], ["k", "1"]]],
             ["var", [["x", "1"]]], ["var", [["z", "3"]]], ["clear"]]
+    # round 4: a solver failure inside simulate / simulate_time_course, and scale_parameter(s)
+    ops += [["simF", "2", 2], ["tcF", ["1", "2"]], ["scale", [["k", "2"]]]]
     return ops
 
 
@@ -529,8 +582,9 @@ def gen_random(rng, allow_steady=True, min_len=3, max_len=8):
             else:
                 t = rng.choice(GRID[:17]) if rng.random() < 0.7 else now
             steps = rng.choice([1, 2, 2, 4, 4, 8, 3, 5]) if rng.random() < 0.9 else rng.choice([None, 0])
-            ops.append(["sim", _q(t), steps])
-            if t > now and steps != 0:
+            fails = rng.random() < 0.05
+            ops.append(["simF" if fails else "sim", _q(t), steps])
+            if t > now and steps != 0 and not fails:
                 now = t
         elif r < 0.55:
             k = rng.randint(1, 5)
@@ -546,9 +600,10 @@ def gen_random(rng, allow_steady=True, min_len=3, max_len=8):
                 pts.append(pts[rng.randrange(len(pts))])
             elif style > 0.82:
                 pts = []
-            ops.append(["tc", [_q(t) for t in pts]])
+            fails = rng.random() < 0.05
+            ops.append(["tcF" if fails else "tc", [_q(t) for t in pts]])
             kept = [t for t in pts if t >= now]
-            if pts and pts[-1] > now and all(a < b for a, b in zip(kept, kept[1:])):
+            if pts and pts[-1] > now and all(a < b for a, b in zip(kept, kept[1:])) and not fails:
                 now = pts[-1]
         elif r < 0.65 and allow_steady:
             ops.append(["steady", "?"])
@@ -556,7 +611,14 @@ def gen_random(rng, allow_steady=True, min_len=3, max_len=8):
             kv = [[rng.choice(["k", "u", "w"]), rng.choice(["0", "1/2", "1", "2", "3"])] for _ in range(rng.randint(1, 2))]
             if rng.random() < 0.05:
                 kv.append(["nope", "1"])
-            ops.append(["par", kv])
+            if rng.random() < 0.3:
+                # scale_parameter(s): factors (a dict: distinct names), every product exact in doubles
+                seen = {}
+                for k, _ in kv:
+                    seen[k] = rng.choice(["2", "1/2", "1", "0", "3/2", "1/4"])
+                ops.append(["scale", [[k, f] for k, f in seen.items()]])
+            else:
+                ops.append(["par", kv])
         elif r < 0.93:
             names = rng.sample(VARS, rng.randint(1, 2))
             # also overrides that restate a value the variable had before (its initial value, an earlier override)
@@ -588,7 +650,8 @@ def gen_random(rng, allow_steady=True, min_len=3, max_len=8):
 
 
 def shape_of(case):
-    ab = {"sim": "S", "tc": "T", "steady": "Y", "par": "P", "var": "V", "clear": "C", "proto": "R", "ptc": "Q"}
+    ab = {"sim": "S", "tc": "T", "steady": "Y", "par": "P", "var": "V", "clear": "C", "proto": "R", "ptc": "Q",
+          "simF": "s", "tcF": "t", "scale": "X"}
     pre = ""
     if case.get("y0"):
         pre += "y0="
@@ -663,9 +726,9 @@ def setup(ctx):
     ctx.translate(tr.generate)
     ctx.build(PROPS)
     ctx.rule = (
-        "op histories over simulate / simulate_time_course / simulate_to_steady_state / update_parameters / "
-        "update_variable(s) / clear_results on x'=-kx+u, z'=-kz+w with times on a dyadic grid; exhaustive over all "
-        "histories of length <= 3 on a 17-op alphabet with a 5-value time alphabet (thorough: also length 4 on 9 ops), "
+        "op histories over simulate / simulate_time_course (also with a solver that reports failure: s / t in the shapes) / "
+        "simulate_to_steady_state / update_parameter(s) / scale_parameter(s) / update_variable(s) / clear_results on x'=-kx+u, z'=-kz+w with times on a dyadic grid; exhaustive over all "
+        "histories of length <= 3 on a 20-op alphabet with a 5-value time alphabet (thorough: also length 4 on 9 ops), "
         "random for lengths 3..8; distinct = distinct (parameters, history); non-trivial = at least two recorded segments"
     )
     ctx.assumptions += [
@@ -704,6 +767,13 @@ def run(ctx):
         cases = [gen_random(ctx.rng) for _ in range(min(400, n - done))]
         process(ctx, cases)
         done += len(cases)
+    # 3. histories with protocol calls ("simulate, time-course and protocol calls" in the property text): C14's generator and
+    #    judge through driver op "c14" (same machines + the protocol ops), incl. the R-only checks that the caller's
+    #    time-point array / protocol table are left untouched
+    if len(ctx.violations) <= 10:
+        from . import c14
+
+        c14.process(ctx, [c14.gen_case(ctx.rng) for _ in range(ctx.n(300, 3000) * (1 if ctx.proof_ok or thorough else 4))])
     if (not ctx.proof_ok or ctx.drift) and not ctx.violations:
         ctx.notes.append("proof/correspondence broken: exhaustive length-3 stratum and the random stratum above were the failing-input search")
 
@@ -714,6 +784,10 @@ def replay(ctx, rp):
         from . import c04grid
 
         return c04grid.replay(ctx, case)
+    if any(o[0] in ("proto", "ptc") for o in case["ops"]):
+        from . import c14
+
+        return c14.replay(ctx, rp)
     (real, drv), = evaluate([case], ctx.driver_ok, parallel=False)
     if drv is not None:
         R, M, S, okhist = assemble(case, real, drv)
